@@ -2,6 +2,7 @@ package props
 
 import (
 	"fmt"
+	"strings"
 	"math/big"
 	"math/rand"
 	"sync"
@@ -117,4 +118,15 @@ func harnRunCommitPadded(fn func(api frontend.API), pad int) engine.Result {
 
 func harnRunOpt(opt engine.Options, define func(api frontend.API) error) engine.Result {
 	return harn.Run(opt, define)
+}
+
+// shortSite: the innermost repository frame outside the goldilocks package.
+func shortSite(site string) string {
+	parts := strings.Split(site, "<")
+	for _, p := range parts {
+		if !strings.HasPrefix(p, "goldilocks.") {
+			return p
+		}
+	}
+	return parts[0]
 }
